@@ -2,7 +2,7 @@
 Require Extraction.
 Require Import ExtrOcamlBasic.
 From Coq Require Import ZArith List Bool.
-From V Require Import base.Cal iso.IsoBase iso.IsoModel iso.IsoSpec.
+From V Require Import base.Cal iso.IsoBase iso.IsoModel iso.IsoSpec iso.IsoText.
 Import ListNotations.
 Open Scope Z_scope.
 
@@ -54,6 +54,7 @@ Definition b2z (b : bool) : Z := if b then 1 else 0.
    2 model parse_isotime(s)               [s..]
    3 model parse_tzstr(s, zero_as_utc)    [z; s..]
    10..13 the same four for the SPEC (10: sep must be a valid separator)
+   30, 32 isoparse / parse_isotime for the grammar of the property TEXT (IsoText.iso_text / time_text)
    20 render: [sepcfg(-1|byte); dform; has_time; tform; comma; k; sepbyte; offkind; offflag; oh; om;
                y; m; d; h; mi; s; us; extra...]
       -> [wf; valid; n; string (n bytes)...; expected (10 ints)]
@@ -75,6 +76,12 @@ Definition dispatch (n : Z) (args : list Z) : list Z :=
   | 11 => enc_opt enc_date (date_denotes args)
   | 12 => enc_opt enc_time (time_denotes args)
   | 13 => match args with z :: s => enc_opt enc_tzv (tzstr_denotes (negb (z =? 0)) s) | [] => [-1] end
+  | 30 => match split_sep args with       (* the grammar of the property text (iso/IsoText.v) *)
+          | Some (None, s) => enc_opt enc_dt (iso_text None s)
+          | Some (Some [c], s) => enc_opt enc_dt (iso_text (Some c) s)
+          | _ => [-1]
+          end
+  | 32 => enc_opt enc_time (time_text args)
   | 20 | 21 =>
       match args with
       | sepcfg :: df :: has_time :: tf :: comma :: k :: sepbyte :: okind :: oflag :: oh :: om ::
@@ -86,7 +93,7 @@ Definition dispatch (n : Z) (args : list Z) : list Z :=
           let dt := (y, m, d, h, mi, s, us) in
           if n =? 20 then
             let str := render_iso f dt o in
-            [b2z (wf_fmt f sep o); b2z (valid_dt dt); Z.of_nat (length str)] ++ str ++
+            [b2z (wf_fmt f sep o) + 2 * b2z (wf_fmt_text f sep o); b2z (valid_dt dt); Z.of_nat (length str)] ++ str ++
             enc_dt (expected f dt o)
           else
             let str := render_iso_2400 f (y, m, d) o in
